@@ -17,7 +17,8 @@ func init() {
 
 func (mediumEngine) Worker(c workerCfg) *evid.Stats {
 	return mediumsim.Worker(mediumsim.Config{Prop: c.Prop, Tier: c.Tier, Seed: c.Seed, W: c.W, NW: c.NW,
-		Deadline: time.Now().Add(c.Budget), RepoDir: c.Repo, Scratch: c.Scratch, Known: c.Known})
+		Deadline: time.Now().Add(c.Budget), RepoDir: c.Repo, Scratch: c.Scratch, Known: c.Known,
+		Journal: c.Journal, EmitAt: c.EmitAt, EmitOut: c.EmitOut})
 }
 
 func (mediumEngine) Exec(prop string, raw json.RawMessage, c workerCfg) (*evid.Violation, error) {
